@@ -110,7 +110,7 @@ class Verdict:
     def finish(self):
         wall = time.time() - self.t0
         rdir = OUT / "replays"
-        rdir.mkdir(exist_ok=True)
+        rdir.mkdir(parents=True, exist_ok=True)
         for i, f in enumerate(self.findings):
             if i in self.known:
                 print("KNOWN-FINDING: property=%s %s (seen %d times in this run)" % (self.prop, f["what"], self.known[i]))
@@ -147,7 +147,7 @@ class Verdict:
               "coverage": cov, "assumptions": self.assumptions, "wall_s": round(wall, 2),
               "violations": len(self.violations)}
         edir = OUT / "evidence"
-        edir.mkdir(exist_ok=True)
+        edir.mkdir(parents=True, exist_ok=True)
         (edir / (self.prop + ".json")).write_text(json.dumps(ev, indent=1, default=str) + "\n")
         for l in vio_lines:
             print(l)
